@@ -19,8 +19,17 @@ import (
 	"time"
 )
 
-// Root is the directory holding known_findings.txt, evidence/ and replays/.
+// Root is the directory holding known_findings.txt; Out the one receiving
+// evidence/ and replays/ (the same unless VERIF_OUT redirects scratch runs).
 var Root = "/verif"
+var Out = ""
+
+func outDir() string {
+	if Out != "" {
+		return Out
+	}
+	return Root
+}
 
 type Violation struct {
 	Key    string      `json:"key"`
@@ -255,7 +264,7 @@ func (r *Run) Require(cell string) {
 // Cur logs the case about to run to disk, so a process-fatal error is attributable.
 func (r *Run) Cur(s string) {
 	if r.CurFile == "" {
-		r.CurFile = filepath.Join(Root, "evidence", r.ID+".cur")
+		r.CurFile = filepath.Join(outDir(), "evidence", r.ID+".cur")
 	}
 	_ = os.WriteFile(r.CurFile, []byte(s+"\n"), 0o644)
 }
@@ -297,7 +306,7 @@ func (r *Run) Finish() int {
 	}
 	// replays
 	if nviol > 0 {
-		dir := filepath.Join(Root, "replays", r.ID)
+		dir := filepath.Join(outDir(), "replays", r.ID)
 		_ = os.MkdirAll(dir, 0o755)
 		for i := range r.viol {
 			v := &r.viol[i]
@@ -346,8 +355,8 @@ func (r *Run) Finish() int {
 		Known: r.knownHit, Inconcl: r.inconcl}
 	if r.OnlyPhase == "" {
 		b, _ := json.MarshalIndent(ev, "", " ")
-		_ = os.MkdirAll(filepath.Join(Root, "evidence"), 0o755)
-		if err := os.WriteFile(filepath.Join(Root, "evidence", r.ID+".json"), append(b, '\n'), 0o644); err != nil {
+		_ = os.MkdirAll(filepath.Join(outDir(), "evidence"), 0o755)
+		if err := os.WriteFile(filepath.Join(outDir(), "evidence", r.ID+".json"), append(b, '\n'), 0o644); err != nil {
 			fmt.Println("INCONCLUSIVE property=" + r.ID + " cannot write evidence: " + err.Error())
 			if code == 0 {
 				code = 2
